@@ -31,14 +31,18 @@ OUT = os.path.join(os.path.dirname(os.path.dirname(os.path.abspath(__file__))), 
 # string newtypes / leaves that ARE (part of) a class, field or method reference
 REF_LEAVES = {
     "ClassName", "ObjClassName", "ArrClassName", "FieldDescriptor", "MethodDescriptor", "ReturnDescriptor",
-    "FieldName", "MethodName", "ClassSignature", "FieldSignature", "MethodSignature", "RecordName", "PackageName",
-    # raw attribute bytes index the constant pool of the class they were read from
+    "FieldName", "MethodName", "ClassSignature", "FieldSignature", "MethodSignature", "RecordName",
+    # raw attribute bytes index the constant pool of the class they were read from: they may name anything, nobody can
+    # tell (remap.rs copies them; Thm/C07.lean lists these positions as `opaqueKept`, not as findings)
     "Attribute",
 }
 # leaves that carry no class / field / method reference
 PLAIN_LEAVES = {
     "JavaString", "bool", "u8", "u16", "u32", "i8", "i16", "i32", "i64", "f32", "f64", "Label", "LvIndex",
     "LocalVariableName", "ParameterName", "ModuleName", "T", "TypePath", "TypePathKind", "ArrayType",
+    # a package is not a class, field or method: a class remapper (map_class / map_field / map_method) has no answer for
+    # it, like for a module name (ASM's Remapper.mapPackageName is the identity by default as well)
+    "PackageName",
     # parsed by hand-written code, never holding names
     "ParsedFieldDescriptor", "ParsedMethodDescriptor", "ParsedReturnDescriptor", "Type", "ArrayTypeDesc", "BaseOrObjectType",
 }
@@ -277,8 +281,28 @@ def classify_expr(e, pos_names):
     return "custom"
 
 
+def let_bindings(body):
+    """`let x = expr;` statements of an fn body (simple identifiers only) -> {x: expr}"""
+    out = {}
+    for m in re.finditer(r"\blet\s+([a-z_][a-z0-9_]*)\s*=\s*", body):
+        i, depth = m.end(), 0
+        while i < len(body):
+            ch = body[i]
+            if ch in "([{":
+                depth += 1
+            elif ch in ")]}":
+                depth -= 1
+            elif ch == ";" and depth == 0:
+                break
+            i += 1
+        out[m.group(1)] = " ".join(body[m.end():i].split())
+    return out
+
+
 def struct_literals(body, tname):
-    """all `Tname { … }` literals in body -> list of {field: expr}"""
+    """all `Tname { … }` literals in body -> list of {field: expr}; a field initialised from a variable bound by a plain
+    `let x = expr;` of the same body counts as initialised from `expr`"""
+    lets = let_bindings(body)
     lits = []
     for m in re.finditer(r"\b%s\s*\{" % re.escape(tname), body):
         end = matching(body, m.end() - 1)
@@ -287,7 +311,8 @@ def struct_literals(body, tname):
             fm = re.match(r"([a-z_][a-z0-9_]*)\s*(?::\s*(.+))?$", part, flags=re.S)
             if not fm:
                 raise Bad("impl for %s: cannot parse field initialiser %r" % (tname, part))
-            d[fm.group(1)] = fm.group(2) if fm.group(2) is not None else fm.group(1)
+            e = fm.group(2) if fm.group(2) is not None else fm.group(1)
+            d[fm.group(1)] = lets.get(e.strip(), e)
         lits.append(d)
     return lits
 
